@@ -1,0 +1,151 @@
+//go:build verif
+
+// Contracts for the deductive verifier in /verif (govc): content integrity of
+// the git blob reading path (C14). Comment-only file, compiled only with
+// -tags verif.
+
+package gitindex
+
+// ---------------------------------------------------------------------------
+// C14: the content slab never hands out overlapping memory
+// ---------------------------------------------------------------------------
+
+//@ pure func okSlab(s *contentSlab) bool = len(s.buf) <= cap(s.buf) && 0 <= s.cap && s.cap <= 1099511627776
+
+// alloc(n) returns exactly n bytes with capacity n (an append to one file's
+// content cannot reach its neighbour). The region is either a fresh
+// allocation, or the part of the shared buffer that starts where the bytes
+// handed out so far end - and the buffer's length then covers it, so the next
+// region starts after it: regions handed out from one buffer are disjoint.
+//@ func gitindex.(*contentSlab).alloc
+//@   may_panic
+//@   requires s != nil && okSlab(s)
+//@   ensures len(result) == n && cap(result) == n
+//@   ensures fresh(result) || (base(result) == base(old(s.buf)) && offset(result) == offset(old(s.buf)) + old(len(s.buf)) && s.buf == old(s.buf)[:old(len(s.buf)) + n])
+//@   ensures fresh(result) && n <= s.cap ==> base(s.buf) == base(result) && offset(s.buf) == offset(result) && len(s.buf) == n
+//@   ensures n > s.cap ==> s.buf == old(s.buf)
+//@   ensures okSlab(s) && s.cap == old(s.cap)
+//@   assigns s.buf
+
+// For a non-negative size of at most 2^40 bytes (what git reports for a blob
+// that fits in memory) alloc cannot panic.
+//@ func gitindex.(*contentSlab).alloc#nopanic
+//@   extends gitindex.(*contentSlab).alloc
+//@   requires 0 <= n && n <= 1099511627776
+
+// ---------------------------------------------------------------------------
+// C14: streaming blobs out of "git cat-file --batch"
+// ---------------------------------------------------------------------------
+
+// streamPos: number of bytes consumed so far from the cat-file output (ghost).
+//@ ghost var streamPos int
+
+// bufio.Reader (assumed, from its documentation): each method consumes exactly
+// the bytes it returns / was asked to discard, when it succeeds.
+//@ func bufio.(*Reader).Discard
+//@   trusted
+//@   ensures result1 == nil ==> result0 == n && streamPos == old(streamPos) + n
+//@   ensures 0 <= result0 && result0 <= max(n, 0) && streamPos == old(streamPos) + result0
+//@   assigns streamPos
+//@ func bufio.(*Reader).ReadBytes
+//@   trusted
+//@   ensures result1 == nil ==> len(result0) >= 1 && result0[len(result0)-1] == delim
+//@   ensures streamPos == old(streamPos) + len(result0) && fresh(result0)
+//@   assigns streamPos
+//@ func bufio.(*Reader).ReadByte
+//@   trusted
+//@   ensures result1 == nil ==> streamPos == old(streamPos) + 1
+//@   ensures result1 != nil ==> streamPos == old(streamPos)
+//@   assigns streamPos
+//@ func bufio.(*Reader).Read
+//@   trusted
+//@   ensures 0 <= result0 && result0 <= len(p) && streamPos == old(streamPos) + result0
+//@   assigns streamPos, p[*]
+
+// Next: before the next header is read, exactly the unread remainder of the
+// previous entry (content and trailing LF) has been skipped; on success for a
+// present blob the entry's size plus its LF is pending.
+//@ func gitindex.(*catfileReader).Next
+//@   requires cr != nil && cr.reader != nil
+//@   assert at call:ReadBytes: streamPos == old(streamPos) + max(old(cr.pending), 0) && cr.pending <= 0
+//@   ensures err == nil && !missing && !excluded ==> cr.pending == size + 1
+//@   ensures err == nil && (missing || excluded) ==> cr.pending <= 0 && size == 0
+//@   assigns cr.pending, streamPos
+
+// Read: never consumes more than the current blob's content plus its trailing
+// LF, delivers only content bytes, consumes the LF exactly when the content is
+// exhausted, and keeps the pending count equal to what is left of the entry.
+//@ func gitindex.(*catfileReader).Read
+//@   requires cr != nil && cr.reader != nil
+//@   ensures old(cr.pending) <= 0 ==> result0 == 0 && streamPos == old(streamPos)
+//@   ensures old(cr.pending) > 0 ==> 0 <= result0 && result0 <= old(cr.pending) - 1 && result0 <= len(p)
+//@   ensures old(cr.pending) > 0 ==> streamPos - old(streamPos) <= old(cr.pending)
+//@   ensures old(cr.pending) > 0 && result1 == nil ==> cr.pending == old(cr.pending) - (streamPos - old(streamPos)) && cr.pending != 1
+//@   ensures old(cr.pending) > 0 ==> cr.pending >= 0 && cr.pending <= old(cr.pending) - result0
+//@   assigns cr.pending, streamPos, p[*]
+
+// ---------------------------------------------------------------------------
+// C14: which tree entries become documents
+// ---------------------------------------------------------------------------
+
+// ignored(m, p): the ignore file's verdict on path p (abstract; Matcher.Match
+// is assumed to compute it without touching memory).
+//@ abstract func ignored(m *ignore.Matcher, p string) bool
+//@ func ignore.(*Matcher).Match
+//@   trusted
+//@   ensures result == ignored(m, path)
+//@   assigns nothing
+
+// fileRecorded: handleEntry has recorded the entry in the walker's file table
+// (ghost, set where the table is updated).
+//@ ghost var fileRecorded bool
+
+//@ func gitindex.(*RepoWalker).tryHandleSubmodule
+//@   trusted
+//@   assigns nothing
+
+// An entry is recorded exactly when it is a regular file, an executable or a
+// symbolic link and the ignore file does not exclude its path: no document for
+// submodule links, directories or ignored paths, and none of the others is
+// dropped.
+//@ pure func isFileMode(m int) bool = m == 33188 || m == 33261 || m == 40960
+//@ func gitindex.(*RepoWalker).handleEntry
+//@   may_panic
+//@   requires !fileRecorded
+//@   ghost at mapupdate:Files: fileRecorded = true
+//@   ensures fileRecorded ==> isFileMode(e.Mode) && !ignored(ig, p)
+//@   ensures result == nil && isFileMode(e.Mode) && !ignored(ig, p) ==> fileRecorded
+
+// ---------------------------------------------------------------------------
+// C14: one document per collected (path, blob) pair on the cat-file path
+// ---------------------------------------------------------------------------
+
+// docsAdded counts calls of Builder.Add (ghost).
+//@ ghost var docsAdded int
+
+//@ func index.(*Builder).CheckMemoryUsage
+//@   trusted
+//@   assigns nothing
+//@ func gitindex.skippedDoc
+//@   trusted
+//@   assigns nothing
+//@ func gitindex.(*catfileReader).Close
+//@   trusted
+//@   assigns nothing
+//@ func io.ReadFull
+//@   trusted
+//@   assigns streamPos, buf[*]
+
+// A successful run hands exactly one document per key to the builder, in key
+// order: present blobs, blobs over the size limit, blobs excluded by the
+// filter and blobs missing from the repository alike (the last three as
+// skipped documents).
+//@ func gitindex.indexCatfileBlobs
+//@   may_panic
+//@   requires cr != nil && cr.reader != nil && builder != nil
+//@   ghost at call:Add: docsAdded = docsAdded + 1
+//@   loop 1:
+//@     invariant docsAdded == old(docsAdded) + $i + 1
+//@     invariant cr != nil && cr.reader != nil && okSlab(addr(slab))
+//@     decreases len(keys) - $i
+//@   ensures result == nil ==> docsAdded == old(docsAdded) + len(keys)
